@@ -463,7 +463,7 @@ def coordsys_case(ctx, P, case):
     try:
         real = cs_real(sys, case["a"], case["pts"], case["comps"])
     except Exception as e:  # an exception of the real code on a valid point
-        ctx.monitor_fail("coordsys", case, f"{type(e).__name__}: {e}", "matrices", f"{sys}: exception",
+        ctx.monitor_fail("coordsys", case, f"{type(e).__name__}: {e}", "matrices", "coordinate system: exception",
                          key=other_key(sys, f"{sys} coordinates", "exception"))
         return
     m = len(case["pts"])
@@ -479,12 +479,12 @@ def coordsys_case(ctx, P, case):
         ctx.monitor_evals += 1
         for symptom, detail in cs_monitor(sys, real, k, scale):
             ctx.monitor_fail("coordsys", dict(case, point=k), detail, "orthonormal right-handed basis = "
-                             "normalised Jacobian columns", f"{sys}: {symptom}",
+                             "normalised Jacobian columns", f"coordinate system: {symptom}",
                              key=other_key(sys, f"{sys} coordinates", symptom))
         v = real["v2c"][k]
         exp = np.asarray(case["comps"][k]) @ real["B"][k]
         if maxdiff(v, exp) > 1e-11 * max(1.0, np.abs(exp).max()):
-            ctx.monitor_fail("coordsys", dict(case, point=k), jl(v), jl(exp), f"{sys}: vec_to_cart",
+            ctx.monitor_fail("coordsys", dict(case, point=k), jl(v), jl(exp), "coordinate system: vec_to_cart",
                              key=other_key(sys, "CoordinatesBase.vec_to_cart", "not sum_j comp_j * basis row j"))
     if case["params"] is None:
         ctx.impl_traces += 1
@@ -570,7 +570,7 @@ def vtc_case(ctx, P, case):
     try:
         obs = vtc_real(spec, case["pts"], comps)
     except Exception as e:
-        ctx.monitor_fail("vtc", case, f"{type(e).__name__}: {e}", "converted vectors", f"{cls}: exception",
+        ctx.monitor_fail("vtc", case, f"{type(e).__name__}: {e}", "converted vectors", "_vector_to_cartesian: exception",
                          key=other_key(spec, "GridBase._vector_to_cartesian", "exception"))
         return
     distinct = all(len({abs(x) for x in c}) == len(c) and all(x != 0 for x in c) for c in comps)
@@ -590,8 +590,8 @@ def vtc_case(ctx, P, case):
     key = classify_conversion(spec, obs, exp_op, exp_cs, 1e-11 * scale)
     if key is not None:
         ctx.monitor_fail("vtc", case, jl(obs), jl(exp_op),
-                         f"{cls}: _vector_to_cartesian does not pair component k with the k-th axis of "
-                         f"{order_of(spec)}", key=key)
+                         "_vector_to_cartesian does not pair component k with the k-th axis of the operators' order",
+                         key=key)
     if case["angs"] is None:
         ctx.impl_traces += 1
         return
@@ -656,7 +656,7 @@ def leg_vtc(ctx, P, rng, n):
                 got = type(e).__name__
             ctx.hist("malformed", f"vtc/{what}/{got}")
             if got != "DimensionError":
-                ctx.monitor_fail("vtc-malformed", case, got, "DimensionError", f"{cls}: wrong shape accepted",
+                ctx.monitor_fail("vtc-malformed", case, got, "DimensionError", "_vector_to_cartesian: wrong shape accepted",
                                  key=other_key(spec, "GridBase._vector_to_cartesian", "shape check"))
 
 
@@ -687,13 +687,13 @@ def order_case(ctx, P, case):
     want = order_of(spec)
     got = real["axes"] + real["axes_sym"]
     if got != want:
-        ctx.monitor_fail("order", case, got, want, f"{cls}: axes + axes_symmetric is not the operators' order",
+        ctx.monitor_fail("order", case, got, want, "axes + axes_symmetric is not the operators' order",
                          key=other_key(spec, "GridBase.axes/axes_symmetric", "component order"))
     for name in ALL_NAMES:
         exp = want.index(name) if name in want else None
         if real["index"][name] != exp:
             ctx.monitor_fail("order", dict(case, name=name), real["index"][name], exp,
-                             f"{cls}: get_axis_index('{name}')",
+                             "get_axis_index(name) is not the position of name in the operators' order",
                              key=other_key(spec, "GridBase.get_axis_index", "index of axis name"))
 
     def cont(resp):
@@ -772,7 +772,7 @@ def fields_case(ctx, P, case):
     vco, tco = case["vec"], case["ten"]
 
     def fail(what, observed, expected, call_site, symptom, extra=None, key=None):
-        ctx.monitor_fail("fields", dict(case, **(extra or {})), observed, expected, f"{cls}: {what}",
+        ctx.monitor_fail("fields", dict(case, **(extra or {})), observed, expected, what,
                          key=key or other_key(spec, call_site, symptom))
 
     # --- VectorField.from_expression: expression i is component i (the i-th axis of the order)
@@ -806,22 +806,22 @@ def fields_case(ctx, P, case):
     for name in ALL_NAMES:
         k = want.index(name) if name in want else None
         if (got_v[name] is None) != (k is None):
-            fail(f"field['{name}'] existence", "IndexError" if got_v[name] is None else "a field",
+            fail("field[name] exists exactly for the axes of the grid", "IndexError" if got_v[name] is None else "a field",
                  "a field" if k is not None else "IndexError", "VectorField.__getitem__", "axis name accepted/rejected",
                  {"name": name})
             continue
         if k is None:
             continue
         if maxdiff(got_v[name], exp_v[k]) > 1e-11 * sc:
-            fail(f"field['{name}'] is the component the operators treat as {name} (index {k})",
-                 "data of another component", f"component {k}", "VectorField.__getitem__", "wrong component by name",
+            fail("field[name] is the component the operators treat as name",
+                 f"field['{name}'] holds the data of another component", f"component {k}", "VectorField.__getitem__", "wrong component by name",
                  {"name": name})
         if maxdiff(v[k].data, exp_v[k]) > 1e-11 * sc:
-            fail(f"field[{k}]", "data differ", f"component {k}", "VectorField.__getitem__", "wrong component by index")
+            fail("field[k] is component k", "data differ", f"component {k}", "VectorField.__getitem__", "wrong component by index")
         if got_lab[name] != f"{name} component":
             swapped = cls == "cylindrical" and got_lab[name] == f"{CS_ORDER[cls][k]} component"
             key = dict(KNOWN_KEY, observed_at="VectorField.__getitem__ label") if swapped else None
-            fail(f"label of field['{name}']", got_lab[name], f"{name} component", "VectorField.__getitem__",
+            fail("the label of field[name] names the axis asked for", got_lab[name], f"{name} component", "VectorField.__getitem__",
                  "label names another axis", {"name": name}, key=key)
     for a in want:
         for b in want:
@@ -832,7 +832,8 @@ def fields_case(ctx, P, case):
     for a, b, dat in got_t:
         i, j = want.index(a), want.index(b)
         if dat is None or maxdiff(dat, exp_t[i, j]) > 1e-11 * sc or maxdiff(t[i, j].data, exp_t[i, j]) > 1e-11 * sc:
-            fail(f"tensor['{a}','{b}'] is component ({i},{j})", "data of another component", f"component ({i},{j})",
+            fail("tensor[a, b] is the component (index a, index b)", f"tensor['{a}','{b}'] holds another component",
+                 f"component ({i},{j})",
                  "Tensor2Field.__getitem__", "wrong component by name", {"names": [a, b]})
     # --- setitem by name
     w = v.copy()
@@ -841,7 +842,7 @@ def fields_case(ctx, P, case):
     expw = exp_v.copy()
     expw[want.index(nm)] = 7.5
     if maxdiff(w.data, expw) > 1e-11 * sc:
-        fail(f"field['{nm}'] = value", "another component was written", f"component {want.index(nm)}",
+        fail("field[name] = value writes the component of name", f"field['{nm}'] = value wrote another component", f"component {want.index(nm)}",
              "VectorField.__setitem__", "wrong component by name")
     t2 = t.copy()
     nm2 = want[(case["set_axis"] + 1) % d]
@@ -849,7 +850,8 @@ def fields_case(ctx, P, case):
     expt = exp_t.copy()
     expt[want.index(nm), want.index(nm2)] = -2.5
     if maxdiff(t2.data, expt) > 1e-11 * sc:
-        fail(f"tensor['{nm}','{nm2}'] = value", "another component was written",
+        fail("tensor[a, b] = value writes component (index a, index b)",
+             f"tensor['{nm}','{nm2}'] = value wrote another component",
              f"component ({want.index(nm)},{want.index(nm2)})", "Tensor2Field.__setitem__", "wrong component by name")
     # --- malformed expression counts
     for bad in ([poly_text(vco[0])] * (d - 1), [poly_text(vco[0])] * (d + 1), poly_text(vco[0])):
@@ -914,7 +916,7 @@ def fields_case(ctx, P, case):
     for k in mon:
         for route, val in (("method", prod[k]), ("operator/@", alt[k])):
             if np.shape(val) != np.shape(mon[k]) or not np.array_equal(np.asarray(val), mon[k]):
-                fail(f"{sites[k]} ({route}) contracts adjacent indices", "differs from the explicit sum",
+                fail(f"{sites[k]} contracts adjacent indices", f"{route}: differs from the explicit sum",
                      "explicit sum over the contracted index", sites[k], "wrong index contracted", {"product": k})
     if not np.array_equal(alt_vv2, mon["vv"]) or not np.array_equal(sq, sum(ud[i] * ud[i] for i in range(d))):
         fail("make_dot_operator / to_scalar('squared_sum')", "differs from the explicit sum", "explicit sum",
@@ -940,6 +942,22 @@ def fields_case(ctx, P, case):
                 maxdiff(np.einsum("ab...,b...->a...", Tc_, xc_), np.einsum("j...,ji->i...", prod["tv"], R)) > 1e-9 * 64:
             fail("dot products are basis independent", "differ after conversion", "equal", "VectorField.dot",
                  "not invariant under the orthonormal change of basis")
+
+    # --- second call site of _vector_to_cartesian: the plot data of 2-d (polar) grids
+    if cls == "polar" and spec["shape"][0] >= 2:
+        r_in, r_out = radii(spec)
+        dr = (r_out - r_in) / spec["shape"][0]
+        for comps_, fx, fy, nm_ in ((["r", "0"], lambda X, Y: X, lambda X, Y: Y, "r e_r -> (x, y)"),
+                                    (["0", "r"], lambda X, Y: -Y, lambda X, Y: X, "r e_φ -> (-y, x)")):
+            dat = pde.VectorField.from_expression(g, comps_).get_vector_data()
+            X, Y = np.meshgrid(dat["x"], dat["y"], indexing="ij")
+            R = np.hypot(X, Y)
+            msk = (R > r_in + dr / 2) & (R < r_out - dr / 2)
+            ctx.monitor_evals += 1
+            if msk.any() and (maxdiff(dat["data_x"][msk], fx(X, Y)[msk]) > 1e-10 * r_out or
+                              maxdiff(dat["data_y"][msk], fy(X, Y)[msk]) > 1e-10 * r_out):
+                fail("get_vector_data returns Cartesian components", "differs", nm_, "GridBase.get_vector_data",
+                     "plot data not in the Cartesian basis")
 
     # --- model: component picked by name, labels, products at one cell
     def cont_get(resp):
@@ -1039,7 +1057,7 @@ def leg_fields(ctx, P, rng, n):
             in_repo = any("/pde/" in f.filename for f in tb)
             if not in_repo:
                 raise
-            ctx.monitor_fail("fields", case, f"{type(e).__name__}: {e}", "no exception", f"{cls}: exception in py-pde",
+            ctx.monitor_fail("fields", case, f"{type(e).__name__}: {e}", "no exception", "fields: exception in py-pde",
                              key=other_key(case["spec"], "fields", "exception"))
 
 
@@ -1067,7 +1085,7 @@ def point_data(cls, X):
     return rho, z, np.ones_like(x), np.zeros_like(x), cp, sp
 
 
-def gen_cart_box(rng, spec, margin, shape_choices, tries=400):
+def gen_cart_box(rng, spec, margin, shape_choices, tries=400, rho_min=0.0, max_dx=None):
     """a Cartesian grid whose cell centres lie inside the curvilinear grid, `margin` cells away from its
     boundaries (rejection sampling); None if none was found"""
     cls = spec["cls"]
@@ -1093,9 +1111,13 @@ def gen_cart_box(rng, spec, margin, shape_choices, tries=400):
                 continue
             bounds.append([round(a, 3) + 0.001, round(b, 3) - 0.001])
         cart = {"cls": "cartesian", "bounds": bounds, "shape": shape}
+        if max_dx is not None and any((b[1] - b[0]) / n > max_dx for b, n in zip(bounds, shape)):
+            continue
         X = cart_centres(cart)
         r, z = point_data(cls, X)[:2]
         if r.min() < lo_r or r.max() > hi_r or r.min() <= 0:
+            continue
+        if rho_min > 0 and np.hypot(X[..., 0], X[..., 1]).min() < rho_min:
             continue
         if cls == "cylindrical" and (z.min() < lo_z or z.max() > hi_z):
             continue
@@ -1144,7 +1166,7 @@ def convert_eval(ctx, P, case, out):
     cls = spec["cls"]
     d = dim_of(spec)
     if isinstance(out, str):
-        ctx.monitor_fail("convert", case, out[-600:], "a converted field", f"{cls}: exception in interpolate_to_grid",
+        ctx.monitor_fail("convert", case, out[-600:], "a converted field", "interpolate_to_grid: exception",
                          key=other_key(spec, "VectorField.interpolate_to_grid", "exception"))
         return
     X = out["cell_coords"]
@@ -1164,7 +1186,7 @@ def convert_eval(ctx, P, case, out):
     obs = out["data"]
     if out["result_type"] != "VectorField" or obs.shape != exp_op.shape:
         ctx.monitor_fail("convert", case, [out["result_type"], list(obs.shape)], ["VectorField", list(exp_op.shape)],
-                         f"{cls}: result type/shape", key=other_key(spec, "VectorField.interpolate_to_grid", "result shape"))
+                         "interpolate_to_grid: result type/shape", key=other_key(spec, "VectorField.interpolate_to_grid", "result shape"))
         return
     key = classify_conversion(spec, obs, exp_op, exp_cs if separable or cls == "cylindrical" else None, tol)
     if key is not None:
@@ -1172,8 +1194,8 @@ def convert_eval(ctx, P, case, out):
         ctx.monitor_fail("convert", case,
                          {"at_cartesian_point": jl(X[worst]), "converted": jl(obs[(slice(None),) + worst])},
                          {"expected": jl(exp_op[(slice(None),) + worst]), "tolerance": tol},
-                         f"{cls}: {case['kind']} field is not converted to sum_k f_k e_k with k in the order "
-                         f"{OP_ORDER[cls]}", key=key)
+                         "interpolate_to_grid(CartesianGrid): the field is not converted to sum_k f_k e_k with k "
+                         "in the operators' order", key=key)
     # correspondence: the model converts the grid-basis values the real interpolator returned
     gd = out["grid_data"]
     n = int(np.prod(gd.shape[1:]))
@@ -1296,7 +1318,7 @@ def commute_eval(ctx, case, out):
     d = dim_of(spec)
     order = OP_ORDER[cls]
     if isinstance(out, str):
-        ctx.monitor_fail("commute", case, out[-600:], "fields", f"{cls}: exception in py-pde ({case['kind']})",
+        ctx.monitor_fail("commute", case, out[-600:], "fields", f"commute: exception in py-pde ({case['kind']})",
                          key=other_key(spec, "operators/interpolate_to_grid", "exception"))
         return
     ctx.hist("commute", f"{cls}/{case['kind']}/{case['mode']}")
@@ -1315,7 +1337,7 @@ def commute_eval(ctx, case, out):
             got = out[f"div{k}"][inner]
             if maxdiff(got, np.full_like(got, exp)) > 0.02:
                 ctx.monitor_fail("commute", dict(case, component=k), float(got.mean()), exp,
-                                 f"{cls}: the divergence operator does not treat component {k} as the {name} component",
+                                 "the divergence operator does not treat component k as the k-th axis of the order",
                                  key=other_key(spec, "divergence operator", "component order of the operator"))
         sc = case["scalar"]
         for k, name in enumerate(order):
@@ -1324,7 +1346,7 @@ def commute_eval(ctx, case, out):
             got = out["grad"][k][inner]
             if maxdiff(got, exp) > 0.02 * max(1.0, float(np.abs(exp).max())):
                 ctx.monitor_fail("commute", dict(case, component=k), jl(got)[:3], jl(exp)[:3],
-                                 f"{cls}: the gradient operator does not store d/d{name} as component {k}",
+                                 "the gradient operator does not store d/d(axis k) as component k",
                                  key=other_key(spec, "gradient operator", "component order of the operator"))
         return
     X = interior(np.moveaxis(out["cell_coords"], -1, 0), d)
@@ -1356,14 +1378,15 @@ def commute_eval(ctx, case, out):
     tol = COMMUTE_TOL * scale
     separable = known is not None and maxdiff(exact, known) > 4 * tol
     ctx.count(case, nontrivial=bool(np.abs(exact).max() > 4 * tol), leg="commute")
-    ctx.hist("commute-error", "first_operator %.0e" % max(maxdiff(a, exact) / scale, 1e-4))
-    ctx.hist("commute-error", "first_conversion(clean cases) %.0e" % max(maxdiff(b, exact) / scale, 1e-4)) \
-        if not separable else None
+    if cls != "cylindrical" or case["kind"] == "div":
+        ctx.hist("commute-error", "first_operator %.0e" % max(maxdiff(a, exact) / scale, 1e-4))
+    if cls != "cylindrical":
+        ctx.hist("commute-error", "first_conversion (polar, spherical) %.0e" % max(maxdiff(b, exact) / scale, 1e-4))
     what = "divergence" if case["kind"] == "div" else "gradient"
     # (1) the operator applied on the grid, then converted (scalar: plain interpolation)
     if case["kind"] == "div" and maxdiff(a, exact) > tol:
         ctx.monitor_fail("commute", case, {"max_error": maxdiff(a, exact)}, {"tolerance": tol},
-                         f"{cls}: divergence on the grid deviates from the continuum divergence in the order {order}",
+                         "divergence on the grid deviates from the continuum divergence in the operators' order",
                          key=other_key(spec, "divergence operator", "not the divergence of (f_k) in the operators' order"))
     # (2) converting commutes with the operator
     pairs = [("first_conversion", b)] + ([("first_operator", a)] if case["kind"] == "grad" else [])
@@ -1375,8 +1398,7 @@ def commute_eval(ctx, case, out):
         else:
             key = other_key(spec, "VectorField.interpolate_to_grid", f"conversion does not commute with {what}")
         ctx.monitor_fail("commute", dict(case, route_order=nm), {"max_deviation": maxdiff(arr, exact), "scale": scale},
-                         {"tolerance": tol}, f"{cls}: conversion to Cartesian does not commute with the {what} "
-                         f"({nm.replace('_', ' ')})", key=key)
+                         {"tolerance": tol}, f"conversion to Cartesian does not commute with the {what}", key=key)
 
 
 def gen_commute_case(rng, cls, mode, kind):
@@ -1398,14 +1420,16 @@ def gen_commute_case(rng, cls, mode, kind):
         if cls == "cylindrical":
             scalar["z"] = c8(8, 24)
         return {"leg": "commute", "kind": kind, "spec": spec, "probes": probes, "scalar": scalar, "mode": mode}
-    cart = gen_cart_box(rng, spec, 1.6, [5, 6] if d == 3 else [6, 8])
+    # boxes stay one unit away from the axis: e_r and e_phi are singular there, and finite differences
+    # of a converted field with a non-vanishing angular/radial component on the axis do not converge
+    cart = gen_cart_box(rng, spec, 1.6, [5, 6] if d == 3 else [6, 8], tries=3000, rho_min=1.0, max_dx=0.3)
     if cart is None:
         return None
     if kind == "div":
         comps = []
         for name in order:
             if name == "r":
-                c = {"": 0.0 if not hole else c8(), "r": c8(4, 12), "rr": c8(1, 3)}
+                c = {"": c8(), "r": c8(4, 12), "rr": c8(1, 3)}
                 if cls == "cylindrical":
                     c["z"] = c8(1, 4)
             elif name == "z":
@@ -1444,8 +1468,28 @@ def leg_subprocess(ctx, P, rng, n_convert, n_commute, n_jit):
         src = conv if i % 2 == 0 else comm
         c = dict(src[rng.randrange(len(src))], mode="J")
         jit.append(c)
-    res_s = run_many("harness.c19", "sub_worker", conv + comm, env={"NUMBA_DISABLE_JIT": "1"}, procs=16)
-    res_j = run_many("harness.c19", "sub_worker", jit, env={"NUMBA_DISABLE_JIT": "0"}, procs=16) if jit else []
+    # source semantics (10 processes) and JIT (6 processes) side by side
+    import os
+    import threading
+    box = {}
+    base = os.environ.get("VERIF_WORKDIR") or "."
+
+    def go(name, cases, env, procs):
+        try:
+            box[name] = run_many("harness.c19", "sub_worker", cases, env=env, procs=procs,
+                                 workdir=os.path.join(base, "iso_" + name)) if cases else []
+        except BaseException as e:  # re-raised in the main thread
+            box[name] = e
+    th = [threading.Thread(target=go, args=("S", conv + comm, {"NUMBA_DISABLE_JIT": "1"}, 10 if jit else 16)),
+          threading.Thread(target=go, args=("J", jit, {"NUMBA_DISABLE_JIT": "0"}, 6))]
+    for t in th:
+        t.start()
+    for t in th:
+        t.join()
+    for v in box.values():
+        if isinstance(v, BaseException):
+            raise v
+    res_s, res_j = box["S"], box["J"]
     for case, out in zip(conv + comm + jit, list(res_s) + list(res_j)):
         if case["leg"] == "convert":
             convert_eval(ctx, P, case, out)
@@ -1466,3 +1510,73 @@ def run(ctx):
     leg_fields(ctx, P, rng, ctx.budget(60, 1200))
     leg_subprocess(ctx, P, rng, ctx.budget(160, 3000), ctx.budget(60, 800), ctx.budget(8, 48))
     P.run()
+
+
+# ------------------------------------------------------------------------------------------
+def run_case(col, P, case):
+    """re-run one case of any leg on the real code with the monitors reporting into `col`"""
+    from harness.common.isolated import run_one
+    leg = case.get("leg")
+    case = {k: v for k, v in case.items() if k not in ("point", "name", "names", "product", "component", "route_order")}
+    if leg == "coordsys":
+        coordsys_case(col, P, case)
+    elif leg == "vtc":
+        vtc_case(col, P, case)
+    elif leg == "order":
+        order_case(col, P, case)
+    elif leg == "fields":
+        fields_case(col, P, case)
+    elif leg in ("convert", "commute"):
+        env = {"NUMBA_DISABLE_JIT": "0" if case.get("mode") == "J" else "1"}
+        out = run_one("harness.c19", "sub_worker", case, env=env)
+        if leg == "convert":
+            convert_eval(col, P, case, out)
+        else:
+            commute_eval(col, case, out)
+    elif leg == "vtc-malformed":
+        from pde.grids.coordinates.base import DimensionError
+        g = build(case["spec"])
+        d = dim_of(case["spec"])
+        pts, comps = (np.ones(d - 1), np.ones(d)) if case["wrong"] == "points" else (np.ones(d), np.ones(d + 1))
+        try:
+            g._vector_to_cartesian(pts, comps)
+            col.monitor_fail(leg, case, "no-error", "DimensionError", "wrong shape accepted")
+        except DimensionError:
+            pass
+    else:
+        raise ValueError(f"unknown leg {leg}")
+
+
+def search(ctx, broken):
+    """failing-input search after a broken tie: the monitors on the disagreeing cases and on a fresh,
+    larger sample of every generator (monitors only, no model)"""
+    col = Collector()
+    P = NoModel()
+    for d in broken:
+        c = d.get("case") if isinstance(d, dict) else None
+        if isinstance(c, dict) and "leg" in c:
+            try:
+                run_case(col, P, c)
+            except Exception:
+                pass
+    rng = ctx.sub_rng("search")
+    leg_coordsys(col, P, rng, 900)
+    leg_vtc(col, P, rng, 900)
+    leg_order(col, P, rng, 60)
+    leg_fields(col, P, rng, 120)
+    leg_subprocess(col, P, rng, 240, 90, 0)
+    return col.monitor_failures
+
+
+def replay(ctx, rep):
+    case = rep["case"]
+    col = Collector()
+    run_case(col, NoModel(), case)
+    for mf in col.monitor_failures[:5]:
+        print("monitor failure:", mf["what"])
+        print("  observed:", str(mf["observed"])[:400])
+        print("  expected:", str(mf["expected"])[:400])
+        print("  key:", mf["key"])
+    if not col.monitor_failures:
+        print("monitor: holds")
+    return not col.monitor_failures
